@@ -13,7 +13,7 @@ from ..absint import eval_term
 from ..facts import AnalysisError
 from ..terms import const, contains, show, strip_sites, subterms
 from ..util import InlineOnly, NoInline, P, calls_to, engine, loc, param_at
-from .C10 import sleep_arg, timing_leaf
+from .C10 import TIMING_VALUATIONS, sleep_arg, timing_leaf
 
 DISC = "sd.ServiceDiscover"
 PROTO = "sd.ServiceDiscoveryProtocol"
@@ -63,7 +63,7 @@ def check(run, prog, tier):
                     probs.setdefault("N2:unexpected-await", f"awaits {show(e.value)[:60]}")
                     continue
                 last_await = e.seq
-                sleeps.append(eval_term(a, leaf))
+                sleeps.append(a)
                 if pending_sleep is not None:
                     probs.setdefault("N2:one-round-per-wait", "two waits without a round in between")
                 pending_sleep = e
@@ -105,12 +105,16 @@ def check(run, prog, tier):
                     probs.setdefault("N3:multicast", f"FindService sent with remote {[show(a) for a in e.args[1:]]} {e.kwargs}; must go to the multicast group")
         max_sends = max(max_sends, n_sends)
         # delays
-        if sleeps:
-            if sleeps[0] != ("uniform", 101, 103):
-                probs.setdefault("N2:initial-delay", f"first wait is {sleeps[0]!r}; expected uniform(INITIAL_DELAY_MIN, INITIAL_DELAY_MAX)")
-            for i, sl in enumerate(sleeps[1:]):
-                if sl != (2 ** i) * 7:
-                    probs.setdefault("N2:repetition-delays", f"wait before repetition {i} is {sl!r}; expected 2**{i} * REPETITIONS_BASE_DELAY = {(2 ** i) * 7}")
+        for V in TIMING_VALUATIONS:
+            lf = timing_leaf(me, valuation=V)
+            vals = [eval_term(a, lf) for a in sleeps]
+            if vals:
+                if vals[0] != ("uniform", V["INITIAL_DELAY_MIN"], V["INITIAL_DELAY_MAX"]):
+                    probs.setdefault("N2:initial-delay", f"first wait is {vals[0]!r} for timings {V}; expected uniform(INITIAL_DELAY_MIN, INITIAL_DELAY_MAX)")
+                for i, sl in enumerate(vals[1:]):
+                    if sl != (2 ** i) * V["REPETITIONS_BASE_DELAY"]:
+                        probs.setdefault("N2:repetition-delays", f"wait before repetition {i} is {sl!r} with REPETITIONS_BASE_DELAY={V['REPETITIONS_BASE_DELAY']} "
+                                         f"and FIND_TTL={V['FIND_TTL']}; expected 2**{i} * REPETITIONS_BASE_DELAY = {(2 ** i) * V['REPETITIONS_BASE_DELAY']}")
         # an empty list ends the task: after a cond deciding 'list empty' there is no further send
         seen_empty = False
         for c, v, node, _ in p.conds:
